@@ -87,6 +87,13 @@ def corr_checkargs(n_quick, n_thorough):
     return run
 
 
+def corr_pixel(n_quick, n_thorough):
+    def run(tier, seed):
+        import corr_pixel as C
+        return C.run(seed, n_quick if tier == 'quick' else n_thorough)
+    return run
+
+
 CONV_FUNCS = ['normalize_bbox', 'denormalize_bbox', 'convert_bbox_to_dicaugment', 'convert_bbox_from_dicaugment',
               'check_bbox', 'convert_keypoint_to_dicaugment', 'convert_keypoint_from_dicaugment', 'check_keypoint',
               'angle_to_2pi_range', 'convert_bboxes_to_dicaugment', 'convert_bboxes_from_dicaugment',
@@ -395,6 +402,24 @@ PROPS['C08'] = {
                   'documented constructor form x documented dtypes x HWD / HWDC x target sets runs and returns all targets; '
                   'missing label fields, positional data and the other malformed calls raise the documented type.',
     'level_note': 'Partial by nature: "runs to completion on every dtype" is not a statement about a model the proof assistant sees.',
+}
+
+PROPS['C18'] = {
+    'requires': [], 'corr': corr_pixel(300, 5000), 'search': 'C18',
+    'trusted_base': ['coq/model/Pixel.v is a hand-written voxel-level model (clip-to-dtype wrapper, MIN / MAX tables, gauss_noise, '
+                     'brightness / contrast with max_brightness, invert with two\'s complement wrap, to_float, from_float, the '
+                     'Sharpen kernel); tied to the code by harness/corr_pixel.py on one-voxel arrays of every dtype at values where '
+                     'float32 arithmetic is exact (to_float within one float32 rounding)',
+                     'SciPy filters, spline zoom, np.power and float32 rounding are not modelled'],
+    'assumptions': ['ndarray.astype(int dtype) of an in-range float truncates toward zero'],
+    'level_text': 'Theorems on the voxel-level model: every @clipped formula returns a value inside the dtype\'s nominal range for '
+                  'all six dtypes (saturation, never wrap-around); invert is an involution mapping the range onto itself (integer '
+                  'dtypes with their wrap arithmetic, float32); from_float inverts to_float on the integers of the range; the '
+                  'Sharpen kernel weights sum to 1 - alpha + alpha * lightness; point-wise maps commute with permutations. '
+                  'Explored on the implementation (partial): all image-only transforms x documented dtypes x HWD / HWDC vs an '
+                  'independent NumPy / SciPy evaluation with the recorded parameters (+-1 LSB), dtype / range, permutation and flip '
+                  'commutation.',
+    'level_note': 'Partial: neighbourhood filters, zoom and float32 rounding are explored, not proved.',
 }
 
 NOT_CLAIMED = {}
